@@ -463,6 +463,8 @@ def factory(clsname):
         return lambda label: TupleNode(str(label))
     if clsname == "TupleNameNode":  # ordinary Node whose name is a tuple (e.g. grid coordinates)
         return lambda label: Node((int(label), 0))
+    if clsname == "CachedKids":
+        return lambda label: CachedKidsNode(str(label))
     if clsname == "ViewMix":
         # stock nodes and nodes of a class with its own children view, alternating (so stock nodes sit below such parents)
         return lambda label: (ViewKidsNode(str(label)) if int(label) % 2 == 0 else Node(str(label)))
@@ -497,7 +499,33 @@ class ViewKidsNode(Node):
         NodeMixin.children.fdel(self)
 
 
-TREE_CLASSES = ["Node", "AnyNode", "PlainNM", "SlotLM", "DictLM", "SymlinkNode", "MixNM", "MixLM", "ShadowData", "SlotStoreNM", "ViewMix"] + SPECIAL_CLASSES
+class CachedKidsNode(Node):
+    """A node class whose public `children` hands out a LIST the node owns - the same object as long as its children do
+    not change (a cache that attach/detach hooks invalidate). Reading a tree never writes to what the nodes hand out."""
+
+    @property
+    def children(self):
+        cache = self.__dict__.get("_kids_cache")
+        if cache is None:
+            cache = self.__dict__["_kids_cache"] = list(NodeMixin.children.fget(self))
+        return cache
+
+    @children.setter
+    def children(self, value):
+        NodeMixin.children.fset(self, value)
+
+    @children.deleter
+    def children(self):
+        NodeMixin.children.fdel(self)
+
+    def _post_attach(self, parent):
+        parent.__dict__["_kids_cache"] = None
+
+    def _post_detach(self, parent):
+        parent.__dict__["_kids_cache"] = None
+
+
+TREE_CLASSES = ["Node", "AnyNode", "PlainNM", "SlotLM", "DictLM", "SymlinkNode", "MixNM", "MixLM", "ShadowData", "SlotStoreNM", "ViewMix", "CachedKids"] + SPECIAL_CLASSES
 
 
 # ---------------------------------------------------------------------------
